@@ -745,7 +745,21 @@ func witnessDocs() []*ldoc {
 		headerRowsWitness("odt", []rowSeg{{1, "header", 1}, {1, "", 1}, {1, "header", 2}, {1, "rows", 2}}),
 		headerRowsWitness("odt", []rowSeg{{1, "", 0}, {2, "header", 0}, {1, "", 0}}),
 		headerRowsWitness("docx", nil),
+		// DOCX: a block-level content control inside a table cell, between two direct
+		// paragraphs of the cell; a second cell whose only paragraph sits in w:customXml
+		cellBoxWitness(),
 	}
+}
+
+// cellBoxWitness: paragraph, table [A | B, sdt[C], D] [customXml[E] | F], paragraph.
+func cellBoxWitness() *ldoc {
+	t := gridTable(2, 2, anc{0, 0, 0, 0, "W002x"}, anc{0, 1, 0, 0, "W003x"}, anc{1, 0, 0, 0, "W006x"}, anc{1, 1, 0, 0, "W007x"})
+	c := t.Cells[[2]int{0, 1}]
+	c.Paras = append(c.Paras, lpara{Kind: "p", Runs: tx("W004x")}, lpara{Kind: "p", Runs: tx("W005x")})
+	c.Box, c.BoxAt, c.BoxN = "sdt", 1, 1
+	e := t.Cells[[2]int{1, 0}]
+	e.Box, e.BoxAt, e.BoxN = "customXml", 0, 1
+	return &ldoc{Format: "docx", NoDraw: true, Blocks: []lblock{{P: &lpara{Kind: "p", Runs: tx("W001x")}}, {T: t}, {P: &lpara{Kind: "p", Runs: tx("W008x")}}}}
 }
 
 // boxWitness: paragraph, container[paragraph (and, nested: heading, table)], table,
@@ -979,7 +993,7 @@ func Run(c *hx.Ctx) {
 		"ODT headings whose text:outline-level is NOT the level their paragraph style's definition chain says (a heading moved to another level keeps its style): through an automatic style derived from Heading N / a custom heading style of another level, through a family style that inherits its level (the style named carries no outline level of its own: key odt-outline-level-vs-inherited-style-level), and naming the built-in / custom / localized / family heading style of another level itself (key odt-outline-level-vs-own-style-level; repaired d316e04) - the heading's level is what text:outline-level says; " +
 		"ODT headings that state NO level themselves (text:outline-level left out, empty, 0, 11, -2, 2.5, a word) in every kind of paragraph style - built-in / custom / localized heading style, automatic style derived from one, family style with an own or an inherited level, cyclic styles, a body style or no style (key odt-heading-without-outline-level: a heading, in place, at level 1 or at the level of its paragraph style) - and headings whose level is respelled (03); ODT plain paragraphs <text:p> written in a heading style or in a style derived from one (built-in, custom, localized, automatic PHn / PKn, family styles: key odt-paragraph-in-heading-style - a paragraph, not a heading); " +
 		"every generated and render-stream package in a drawn MARKUP FLAVOUR (flavour.go; about half keep the writers' spelling): DOCX in the ISO/IEC 29500 Strict namespaces (main, relationships, every relationship Type, w:conformance=strict), the relationships namespace under another prefix or declared on each referencing element instead of the root, the main namespace under another prefix or as default namespace (each WordprocessingML part on its own), and combinations; ODT with text/office/style/table/fo under other prefixes, the text / style namespace as default namespace, table/xlink/svg declared on the elements that use them - same logical document, same authored trees, same expectations; HeaderTexts()/FooterTexts() of the reader hold the lines of the header / footer parts (key header-requested); " +
-		"from a stream of its own (structure.go) the STRUCTURE around the blocks and inside the tables: in a third of the DOCX documents one or two runs of 1..3 consecutive blocks (paragraphs, headings, list items, tables) written inside a block-level container that is a direct child of the body - content control w:sdt/w:sdtContent, w:customXml, one nested in the other - half of the time with a table and a paragraph put right behind the container (the container is transparent: its blocks are body content at its place; key block-container-content-lost when they are in no view - known finding - and the usual body-order keys for everything around it), " +
+		"from a stream of its own (structure.go) the STRUCTURE around the blocks and inside the tables: in a third of the DOCX documents one or two runs of 1..3 consecutive blocks (paragraphs, headings, list items, tables) written inside a block-level container that is a direct child of the body - content control w:sdt/w:sdtContent, w:customXml, one nested in the other - half of the time with a table and a paragraph put right behind the container (the container is transparent: its blocks are body content at its place; key block-container-content-lost when they are in no view - REPAIRED, fails on the tree without the repair - and the usual body-order keys for everything around it), in a quarter of the DOCX tables one or two cells with a run of their paragraphs inside such a container that is a child of the w:tc (same key), " +
 		"empty marker elements (w:bookmarkStart / w:bookmarkEnd / w:proofErr) as children of the body between the blocks, w:trPr/w:tblHeader on the leading row(s) of a DOCX table or on rows further down; in a third of the ODT tables the rows laid out by a drawn plan of sections (rows / header-rows / header-rows, rows / rows, header-rows, rows - each directly in the table or in a table:table-row-group of its own, plain rows as they are or in table:table-rows), so that table:table-header-rows also comes AFTER other rows and several times in one table (the table is its rows in source order, wherever they are written); " +
 		"plus fixed witnesses of the quoted defects and a stream of damaged packages; " +
 		"plus documents AT THE RESOURCE BOUNDS of the readers, written element by element (bounds.go; distribution buckets bound:…): inline containers (w:ins/w:sdt/w:sdtContent/w:hyperlink/w:smartTag/w:fldSimple/w:moveTo, text:span/text:a) nested 9999, 10000, 10001, 10002 and 40000 deep with text at several depths - in a body paragraph, a heading, a list-item paragraph, a table-cell paragraph, a header part, a nested table (not decoded), as the first body paragraph, inside a text:section, inside a skipped text:note (not decoded), with block elements behind the refused tag; " +
